@@ -11,7 +11,8 @@ TECHNIQUE = "trace-specification monitor: every query(k, threshold) answer in hi
 RULE = ("case = history of add/update/ngram/merge/save+load events on up to 4 sketches with query(k, threshold) calls interleaved "
         "(thresholds None/0/1/small/2^32-1, k in {1,2,3,10^9}, repeated with unchanged and changed thresholds); non-trivial = the case "
         "contains a query answered from the cache and one that had to rebuild it, on a sketch where identities share a cell; distinct = by "
-        "case digest")
+        "case digest; also k = 0, sketches with 3000-5000 candidates (k in {0,1,2047,2500,10^9}), a third of the queries asked under a "
+        "RuntimeWarning-as-error filter and repeated leniently if that raised, runs of 70 self-merges (bookkeeping wraps at 2^64)")
 ASSUMPTIONS = ["the private fields n_added_sort/threshold_sort are read only to label a query as cache hit or miss for the coverage counters, never asserted",
                "widths 1..8, max_key_len <= 16"]
 LEVEL_TEXT = ("Each of the five clauses of the statement plus equality with a freshly loaded copy is evaluated on every query of "
